@@ -211,6 +211,19 @@ def dedupInts : List Int → List Int
 /-- the set `program.modes`, listed in increasing order -/
 def modeSet (l : List Int) : List Int := sortInts (dedupInts l)
 
+/-- The order in which Python happens to iterate a set (it depends on hashing, hence on
+PYTHONHASHSEED): an arbitrary permutation of the elements. Every place where the code iterates
+a set takes one of these, and C19's theorems quantify over all of them. -/
+structure SetOrder where
+  perm : List Int → List Int
+  isPerm : ∀ l, (perm l).Perm l
+
+/-- the identity order, used by the executable driver -/
+def SetOrder.id : SetOrder := ⟨fun l => l, fun l => List.Perm.refl l⟩
+
+/-- `sorted(bb.modes)` where `bb.modes` is a Python set iterated in the order `o` -/
+def sortedModes (o : SetOrder) (modes : List Int) : List Int := sortInts (o.perm (dedupInts modes))
+
 /-- wrap symbolic arguments that mention a non-parameter symbol as register transforms -/
 def wrapRRT (params : List PEntry) (v : Val K) : Val K :=
   match v with
@@ -230,7 +243,7 @@ def lookupMode (m : List (Int × Int)) (j : Int) : Except Err Int :=
   | none => .error .key
 
 /-- `exitStatement` (also used to replay loop bodies) -/
-def execStmt (incs : Includes K) (st : LState K) (s : Stmt) : LRes K (LState K) := do
+def execStmt (o : SetOrder) (incs : Includes K) (st : LState K) (s : Stmt) : LRes K (LState K) := do
   let T := st.tables
   let modes ← liftE T (s.modes.mapM (evalMode T))
   let st := { st with modes := st.modes ++ modes }
@@ -246,7 +259,7 @@ def execStmt (incs : Includes K) (st : LState K) (s : Stmt) : LRes K (LState K) 
   match dictGet incs s.op with
   | none => .ok { st with ops := st.ops ++ [op] }
   | some (_, bb) =>
-    let bbModes := modeSet bb.modes
+    let bbModes := sortedModes o bb.modes
     if modes.length ≠ bbModes.length then .error (.value, T)
     else do
       let bb ← match args with
@@ -301,14 +314,14 @@ def castLoopVal (ty : VarType) (v : Val K) : Except Err (Val K) :=
 
 /-- convert one loop value, bind the variable, replay the body; value by value (an early
 value's body runs before a later value is converted) -/
-def execLoopVals (incs : Includes K) (ty : VarType) (x : String) (body : List Stmt) :
+def execLoopVals (o : SetOrder) (incs : Includes K) (ty : VarType) (x : String) (body : List Stmt) :
     List (Val K) → LState K → LRes K (LState K)
   | [], st => .ok st
   | v :: vs, st => do
     let cv ← liftE st.tables (castLoopVal ty v)
     let st := { st with tables := { st.tables with vars := dictSet st.tables.vars x cv } }
-    let st ← body.foldlM (execStmt incs) st
-    execLoopVals incs ty x body vs st
+    let st ← body.foldlM (execStmt o incs) st
+    execLoopVals o incs ty x body vs st
 
 /-- values listed by a loop header, before conversion -/
 def loopVals (T : Tables K) : LoopHeader → Except Err (List (Val K))
@@ -324,12 +337,12 @@ def LoopHeader.pars : LoopHeader → List String
   | .list _ vs _ => vs.flatMap ArgVal.pars
 
 /-- `exitForloop` (repaired: an empty loop does not fail on deleting its variable) -/
-def execLoop (incs : Includes K) (st : LState K) (ty : VarType) (x : String) (h : LoopHeader)
+def execLoop (o : SetOrder) (incs : Includes K) (st : LState K) (ty : VarType) (x : String) (h : LoopHeader)
     (body : List Stmt) : LRes K (LState K) := do
   let T := st.tables
   let T' : Tables K := { T with params := T.params ++ h.pars.map .sym }
   let raw ← liftE T' (loopVals T h)
-  let st ← execLoopVals incs ty x body raw { st with tables := T' }
+  let st ← execLoopVals o incs ty x body raw { st with tables := T' }
   .ok { st with tables := { st.tables with vars := dictErase st.tables.vars x } }
 
 /-- reserved-name check shared by scalar and array declarations -/
@@ -416,11 +429,11 @@ def execArr (tdm : Bool) (st : LState K) (ty : VarType) (pos : Pos) (n : VName)
                       else .ok (finish T' (.arr (if parsHere.isEmpty then dt else .object) nr nc (crows.flatMap id)))
           | none => .ok (finish T' (.arr (if parsHere.isEmpty then dt else .object) nr nc (crows.flatMap id)))
 
-def execItem (tdm : Bool) (incs : Includes K) (st : LState K) : Item → LRes K (LState K)
+def execItem (o : SetOrder) (tdm : Bool) (incs : Includes K) (st : LState K) : Item → LRes K (LState K)
   | .var ty n init => execVar st ty n init
   | .arr ty pos n shape body => execArr tdm st ty pos n shape body
-  | .stmt s => execStmt incs st s
-  | .loop ty x h body => execLoop incs st ty x h body
+  | .stmt s => execStmt o incs st s
+  | .loop ty x h body => execLoop o incs st ty x h body
 
 /-! ### paths and files -/
 
@@ -503,7 +516,7 @@ def includeStep (fs : FS)
 /-- walk one parse tree with a fresh listener whose directory is `cwd`, starting from
 tables `T` (shared module state); returns the program, the tables afterwards and the
 listener's include dictionary. The fuel bounds the include depth. -/
-def runScript (fs : FS) : Nat → String → Tables K → Script →
+def runScript (o : SetOrder) (fs : FS) : Nat → String → Tables K → Script →
     LRes K (Program K × Tables K × Includes K)
   | 0, _, T, _ => .error (.ood "include depth", T)
   | fuel + 1, cwd, T, sc => do
@@ -512,11 +525,11 @@ def runScript (fs : FS) : Nat → String → Tables K → Script →
     let T : Tables K := { T with params := T.params ++ (optPars h.target).map .sym }
     let pty ← liftE T (evalOptions T h.ptype)
     let T : Tables K := { T with params := T.params ++ (optPars h.ptype).map .sym }
-    let (_, incs) ← h.includes.foldlM (includeStep fs (runScript fs fuel) cwd) (T, [])
+    let (_, incs) ← h.includes.foldlM (includeStep fs (runScript o fs fuel) cwd) (T, [])
     -- enterProgram clears the tables
     let st : LState K := ⟨Tables.empty, [], []⟩
     let tdm := pty.1 = some "tdm"
-    let st ← sc.items.foldlM (execItem tdm incs) st
+    let st ← sc.items.foldlM (execItem o tdm incs) st
     -- exitProgram
     -- (repaired) only the p-array names, which are stored as strings, are filtered out
     let params := st.tables.params.filterMap fun e =>
@@ -527,11 +540,11 @@ def runScript (fs : FS) : Nat → String → Tables K → Script →
          Tables.empty, incs)
 
 /-- `parse()` as repaired: the tables are cleared before anything is evaluated -/
-def loadStep (fs : FS) (cwd : String) (T : Tables K) (sc : Script) :
+def loadStep (o : SetOrder) (fs : FS) (cwd : String) (T : Tables K) (sc : Script) :
     Except Err (Program K) × Tables K :=
   -- `T` is what earlier loads left behind; it is discarded here
   let _ := T
-  match runScript fs 16 cwd (Tables.empty : Tables K) sc with
+  match runScript o fs 16 cwd (Tables.empty : Tables K) sc with
   | .ok (p, T', _) => (.ok p, T')
   | .error (e, T') => (.error e, T')
 
